@@ -58,7 +58,7 @@ def c17(tier, seed):
     key = lambda r: json.dumps([r["x"], r["y"], r.get("shared", False)], sort_keys=True)
     nontriv = lambda r: r["x"]["k"] not in ("num", "str", "bool", "time") and r["y"]["k"] not in ("num", "str", "bool", "time")
     # Mode A + B: all ordered pairs of depth<=1 types; patterns x ground instances
-    sets = [("pairs", 2 if thorough else 1), ("patterns", 1)]
+    sets = [("pairs", 2 if thorough else 1), ("pp", 1), ("patterns", 1)]
     base = 0
     for mode, size in sets:
         cases, n = run.generate("Gen_Types", "Gen_Types.cfg", mode=mode, size=size, idbase=base)
@@ -94,17 +94,17 @@ EVAL_REL = {
     # C01 preservation: the produced value has the inferred type, deeply; a back end dying of a wrong cast counts
     "C01": per_backend("hastype") | {"total"},
     # C02 progress: only documented failures, exactly when the semantics says so, never an internal fault
-    "C02": per_backend("nofault", "failclass", "specstuck") | {"total"},
+    "C02": per_backend("nofault", "failclass", "nofail", "specstuck") | {"total"},
     # C03 back ends agree with each other (and with the specification's outcome and log)
-    "C03": per_backend("value", "log", "failclass", "accept") | {"agree", "total"},
+    "C03": per_backend("value", "log", "failclass", "nofail", "accept") | {"agree", "total"},
     # C04 documented results
     "C04": per_backend("value") | {"front"},
     # C05 accept exactly the well-typed programs, infer the rule's type, reject at compile time
-    "C05": per_backend("accept") | {"accept", "type"},
+    "C05": per_backend("accept", "value") | {"accept", "type"},   # value: WHICH overload a call resolved to
     # C06 laziness and order: host-call log and outcome
-    "C06": per_backend("log", "value", "failclass"),
+    "C06": per_backend("log", "value", "failclass", "nofail"),
     "C13": {"stdout"},
-    "C16": per_backend("accept", "value", "failclass", "nofault", "hastype") | {"accept", "total"},
+    "C16": per_backend("accept", "value", "failclass", "nofail", "nofault", "hastype") | {"accept", "total"},
 }
 
 
@@ -161,9 +161,10 @@ G = ("Gen_Eval", "Gen_Eval.cfg")
 U1S, U1F, U2 = G + ("u1", 1), G + ("u1", 2), G + ("u2", 1)
 OBJS, PARTIAL, LAZY, OPT = G + ("objs", 1), G + ("partial", 1), G + ("lazy", 1), G + ("opt", 1)
 BI1, BI2 = G + ("builtins", 1), G + ("builtins", 2)
-eval_prop("C01", [OBJS, LAZY], [OBJS, LAZY, OPT, U1F, U2])
+OVER = G + ("over", 1)
+eval_prop("C01", [OBJS, LAZY, OPT], [OBJS, LAZY, OPT, U1F, U2])
 eval_prop("C02", [PARTIAL, LAZY, OPT], [PARTIAL, LAZY, OPT, OBJS, U1F, U2])
 eval_prop("C04", [BI1], [BI2, PARTIAL, U1F])
-eval_prop("C05", [U1S], [U1F, U2, OPT, OBJS])
+eval_prop("C05", [U1S, OVER], [U1F, U2, OPT, OBJS, OVER])
 eval_prop("C06", [LAZY, PARTIAL], [LAZY, PARTIAL, U1F, U2])
 eval_prop("C16", [OPT], [OPT, U1F])
